@@ -136,7 +136,7 @@ def r2(ctx):
             sends = [c for c in v["calls"] if c[0] == send]
             ps = sorted((("sent" if p[0] == s_ else ("errors" if p[0] == e_ else "?")), p[1], p[2]) for p in v["pushes"])
             got = {"form": "loop", "sends": sends, "pushes": ps}
-            okp = sends == [(send, "true")] and ps == sorted([
+            okp = v["complete"] and sends == [(send, "true")] and ps == sorted([
                 ("sent", "$x", "(%s is Ok)" % send),
                 ("errors", "tuple{0: $x, 1: %s.as:Err.0}" % send, "(%s is Err)" % send)])
     ctx.check("Engine::send_requests", okp,
@@ -344,7 +344,7 @@ def r8(ctx):
         for d in ds:
             vs = common.elementwise_views(ctx, d)
             got.append([(v["source"], v["calls"]) for v in vs])
-            okall = okall and len(vs) == 1 and vs[0]["source"] == "requests" and \
+            okall = okall and len(vs) == 1 and vs[0]["complete"] and vs[0]["source"] == "requests" and \
                 [c for c in vs[0]["calls"]] == [("InFlightRequestRecorder::%s(self, $x)" % one, "true")]
         ctx.check("InFlightRequestRecorder::" + many, okall, "every sent request of the batch is recorded, one by one", got=got, key="each")
 
